@@ -93,8 +93,11 @@ func prepStdh(variants ...string) func(c *ctx) error {
 
 		mainSrc, _ := os.ReadFile(filepath.Join(verifRoot, "c", "stdh.c"))
 		libSrc, _ := os.ReadFile(filepath.Join(verifRoot, "c", "stdh_lib.c"))
+		fuzzSrc, _ := os.ReadFile(filepath.Join(verifRoot, "c", "stdh_fuzz.c"))
 		type variant struct{ name, cc, flags, ldflags string }
 		all := map[string]variant{
+			// libFuzzer build (clang): the same harness behind LLVMFuzzerTestOneInput (c/stdh_fuzz.c), edge counters only
+			"fuzz": {"fuzz", "clang", "-g -O1 -fsanitize=address,undefined -fno-sanitize=nonnull-attribute -fno-sanitize-recover=all -fno-omit-frame-pointer -fsanitize-coverage=inline-8bit-counters,pc-table", "-fsanitize=fuzzer,address,undefined"},
 			"san":    {"san", "gcc", "-g -O1 -fsanitize=address,undefined,bounds-strict -fno-sanitize=nonnull-attribute -fno-sanitize-recover=all -fno-omit-frame-pointer", "-fsanitize=address,undefined"},
 			"noarch": {"noarch", "gcc", "-g -O1 -DWUFFS_CONFIG__AVOID_CPU_ARCH -fsanitize=address,undefined,bounds-strict -fno-sanitize=nonnull-attribute -fno-sanitize-recover=all -fno-omit-frame-pointer", "-fsanitize=address,undefined"},
 			"o2":     {"o2", "gcc", "-O2", ""},
@@ -114,6 +117,11 @@ func prepStdh(variants ...string) func(c *ctx) error {
 				h.Write(sb)
 				h.Write(mainSrc)
 				h.Write(libSrc)
+				mainFile := "stdh.c"
+				if v.name == "fuzz" {
+					mainFile = "stdh_fuzz.c"
+					h.Write(fuzzSrc)
+				}
 				h.Write([]byte(strings.Join(kinds, ";") + "|" + v.cc + "|" + v.flags))
 				key := hex.EncodeToString(h.Sum(nil))[:24]
 				cacheDir := filepath.Join(verifRoot, ".work", "cc")
@@ -132,7 +140,7 @@ func prepStdh(variants ...string) func(c *ctx) error {
 				objs := []string{}
 				var iwg sync.WaitGroup
 				var ierr [2]error
-				for k, src := range []string{"stdh_lib.c", "stdh.c"} {
+				for k, src := range []string{"stdh_lib.c", mainFile} {
 					obj := filepath.Join(c.scratch, fmt.Sprintf("%s-%s.o", strings.TrimSuffix(src, ".c"), v.name))
 					objs = append(objs, obj)
 					iwg.Add(1)
